@@ -7,6 +7,10 @@ ALL = ["C%02d" % i for i in range(1, 21)]
 
 # id -> (engine, level, text, note, technique, design_ref)
 CHECKS = {
+ "C01": ("hostile", "exploration",
+   "48 (quick) / 640 (thorough) PRNG-drawn chains over all 15 built-in plugins (valid arguments, any subset/order, half dual-stack, bound/unbound listener), each in a fresh server process inside a private network namespace and fed a history of 500-700 datagrams (stateful client scripts incl. the wire-only shapes, retransmissions, grammar-generated and mutated datagrams, empty and 65507-byte datagrams) plus canaries; oracle: process alive, handling returned, canary handled, at most one reply (UDP capture + sniffed frames).",
+   "blocking is observed through a watchdog plus lock-parked-goroutine classification of the SIGQUIT dump; anything else that stalls is inconclusive.",
+   "crash/hang monitor over supervised server processes (exit status, goroutine dump, canary, reply counter)", "4 C01"),
  "C02": ("range+rangeconc", "exploration",
    "256 (quick) / 3072 (thorough) sequential request histories through the real HandleMsg4 into the range plugin on a real sqlite file, with restarts on the same file, every reply decided by a lease model (in range, injective, sticky, lease time, drop iff full); plus 160 / 1920 concurrent burst histories (one goroutine per datagram, pooled buffers, -race) checked for linearizability against the same model with porcupine.",
    "no lease expiry exists in the code, so stickiness is over the whole history; pools above 4097 addresses are not exhausted; schedules are those the Go scheduler produced.",
